@@ -10,6 +10,9 @@ fake downstream transport; what the downstream client receives is compared byte 
    requests per deployment (overlapping or not), scripted network on a virtual clock (`sim/proxy_world.py`): slow
    upstreams and location timeouts around and above 30 s, answer times checked exactly;
  * family `overlap` — real TLS again: several requests in flight through one `ProxyHandler`, bodies sent in pieces.
+ * family `backlog` — the deployment of `wired`, several downstream connections in one process, downstream clients that
+   read late, in steps, or drop the connection while the server is held up by flow control (`sim/proxy_flow.py`);
+   each case in a child process of its own.
 """
 from __future__ import annotations
 
@@ -41,6 +44,10 @@ ASSUMPTIONS = [
     "exactly one location timeout after the request (2 ms tolerance); the documented default timeout of a location is 30 s; upstream events within 40 ms of the timeout's expiry are not generated; "
     "the model is compared on one request of each case (`focus`), the oracle judges all of them",
     "family overlap (real TLS, wall clock): the location timeout is 4 s, scripts last at most 0.8 s, faults are resets and closes only (no stalls), so no verdict depends on scheduling",
+    "family backlog: as family wired, but a downstream connection takes `room` bytes without the client reading and buffers the rest; a buffer above the protocol's high-water mark is signalled by pause_writing "
+    "during that write, resume_writing follows when the client has read it down to the low-water mark, close() flushes before connection_lost, a dropped connection discards the buffer (asyncio's transport contract); "
+    "every client that stays reads everything in the end and is judged on all the bytes it received (no time limit on reading); a client that dropped out is judged on the bytes it had received: they are the "
+    "beginning of its own response; each case runs in a forked child process, so no case depends on what earlier cases left in the interpreter",
     "timing: every scripted upstream accepts the TCP connection at once, so the fetch — and with it the answer — is due one location timeout after the request; the oracle allows 0.45 s of scheduling margin, repeats a late case twice and reports it only when all three attempts are late; no answer within timeout + 2.5 s is a hang",
 ]
 LEVEL_TEXT = "partial"
@@ -1077,6 +1084,263 @@ class Overlap(Family):
         return f"n={len(case['reqs'])}:big={min(big, 2)}:faults={min(faults, 2)}"
 
 
+# ------------------------------------------------------------------------------------------------
+# family `backlog`: downstream clients that read at their own pace (flow control), or give up, next to others
+# ------------------------------------------------------------------------------------------------
+B_ROOMS = [0, 1, 17, 1024, 4096, 16384, 65536, 100000]
+
+
+def b_client(rng, kind: str):
+    """how a downstream client takes its response (see sim/proxy_flow.py); times are seconds after its request"""
+    if kind == "eager":
+        return {"room": None, "reads": [], "drop": None}
+    room = rng.choice(B_ROOMS)
+    if kind == "late":        # takes `room` bytes, nothing for a while, then everything
+        return {"room": room, "reads": [[rng.choice([0.7, 1.3, 2.6, 4.1, 9.3]), None]], "drop": None}
+    if kind == "paced":       # reads in steps, then everything
+        t, reads = rng.choice([0.0, 0.3, 1.1]), []
+        step = rng.choice([1, 100, 4096, 30000, 65536, 70000, 200000])
+        gap = rng.choice([0.11, 0.23, 0.57])
+        for _ in range(rng.choice([1, 2, 5, 12, 30])):
+            t = round(t + gap, 4)
+            reads.append([t, step])
+        reads.append([round(t + gap, 4), None])
+        return {"room": room, "reads": reads, "drop": None}
+    # drop: takes `room` bytes, perhaps a little more, then drops the connection
+    td = rng.choice([0.0, 0.05, 0.45, 0.9, 1.7, 3.3])
+    reads = [[round(td * 0.5, 4), rng.choice([1, 1000, 65536])]] if td and rng.random() < 0.4 else []
+    return {"room": room, "reads": reads, "drop": td}
+
+
+def b_plan(rng, i: int, T: float):
+    """the upstream's behaviour for request i: mostly complete responses well inside the timeout, many of them with
+    bodies of several write pieces; the fill byte names the request, so that every byte tells whose response it is"""
+    r = rng.random()
+    if r < 0.2:
+        return w_plan(rng, T)      # everything `wired` knows: faults, stalls, malformed headers, late answers
+    te = rng.choice([0.0, 0.0, 0.07, 0.21, 0.43])
+    if r < 0.65:
+        size = rng.choice([66000, 70000, 131072, 200000, 300000, 700000, 1500000])
+        header = f"20 {rng.choice(['application/octet-stream', 'text/plain; charset=latin-1', 'image/png', 'text/gemini'])}\r\n".encode()
+        k = rng.choice([1, 1, 2, 3])
+        ev = [hx(0.0, header)] + [fill(round(te * (j + 1) / k, 4), 0x41 + i, size // k + (size % k if j == k - 1 else 0)) for j in range(k)]
+        return {"ev": ev, "end": [rng.choice(["close", "close", "close", "close", "reset"]), te]}
+    st = rng.choice([20, 20, 20, 21, 31, 51, 10, 44, 62])
+    meta = rng.choice(METAS_2X[:8]) if 20 <= st <= 29 else {1: "Enter a value", 3: "gemini://decoy.example:7070/moved", 4: "slow down", 5: "Not found", 6: "certificate needed"}[st // 10]
+    body = f"# page of request {i}\n".encode() * rng.choice([1, 3, 60]) if 20 <= st <= 29 else b""
+    return {"ev": [hx(te, f"{st} {meta}\r\n".encode() + body)], "end": ["close", te]}
+
+
+def b_show(cl) -> str:
+    if cl.get("room") is None and not cl.get("reads") and cl.get("drop") is None:
+        return "reads at once"
+    s = f"takes {cl.get('room')} bytes"
+    if cl.get("reads"):
+        rd = cl["reads"]
+        s += f", reads {'the rest' if rd[0][1] is None else str(rd[0][1]) + ' more'} at {rd[0][0]:g} s" + (f" … (the rest at {rd[-1][0]:g} s)" if len(rd) > 1 and rd[-1][1] is None else "")
+    if cl.get("drop") is not None:
+        s += f", drops the connection at {cl['drop']:g} s"
+    return s
+
+
+class Backlog(Wired):
+    """The deployment of `wired` (TOML file -> router -> real GeminiServerProtocol -> real ProxyHandler/GeminiClient ->
+    scripted network, virtual clock), several downstream connections to it in one process, and downstream clients
+    that take their response at their own pace: the server's writes run into flow control (pause_writing), a client
+    reads late or in steps, or drops the connection with most of a large relayed body still unsent, while other
+    clients are served before, during and after.  Every client that stays must receive exactly the one well-formed
+    response its own upstream exchange produced; a client that drops out has received the beginning of that response
+    and nothing else."""
+    name = "backlog"
+    quick_n = 240
+    thorough_n = 5000
+
+    # ---- generator ------------------------------------------------------------------------------
+    def gen(self, rng: random.Random, n: int):
+        up0, up1 = W_UPSTREAMS[0], W_UPSTREAMS[2]
+        page = b"20 text/gemini\r\n# a small page\n=> /big the big one\n"
+        bin_head = b"20 application/octet-stream\r\n"
+        eager = {"room": None, "reads": [], "drop": None}
+
+        def loc(prefix, upstream, timeout, strip=False):
+            return {"prefix": prefix, "upstream": upstream, "timeout": timeout, "strip": strip}
+
+        def req(i, path, plan, client, at=0.0):
+            return {"at": at, "lead": 0.0, "line": f"gemini://front.example{path}?r{i}", "plan": plan, "leave": None, "client": client}
+
+        def whole(data, t=0.0):
+            return {"ev": [hx(t, data)], "end": ["close", t]}
+
+        def big(i, size, t=0.0):
+            return {"ev": [hx(0.0, bin_head), fill(t, 0x41 + i, size)], "end": ["close", t]}
+
+        stall = {"ev": [hx(0.0, b"20 text/plain\r\npart")], "end": ["hold", 0.0]}
+        det = [
+            # a client gives up in the middle of a large relayed body; others are served before and after
+            {"locs": [loc("/", up0, 10.0)], "reqs": [req(0, "/small", whole(page), eager), req(1, "/big", big(1, 9 * 1024 * 1024), {"room": 4096, "reads": [], "drop": 1.0}, at=1.0),
+                                                     req(2, "/small", whole(page), eager, at=3.0)]},
+            {"locs": [loc("/", up0, 10.0)], "reqs": [req(0, "/big", big(0, 300000), {"room": 1024, "reads": [[0.2, 1000]], "drop": 0.5}), req(1, "/gone", whole(b"51 Not found\r\n"), eager, at=1.0)]},
+            {"locs": [loc("/a/", up0, 2.0), loc("/b/", up1, 4.0)], "reqs": [req(0, "/a/big", big(0, 200000), {"room": 0, "reads": [], "drop": 0.3}), req(1, "/b/stall", stall, eager, at=0.5),
+                                                                             req(2, "/a/page", whole(page, 0.1), eager, at=0.6)]},
+            {"locs": [loc("/", up0, 5.0)], "reqs": [req(0, "/big", big(0, 700000), {"room": 65536, "reads": [], "drop": 0.4}), req(1, "/big2", big(1, 700000), {"room": 65536, "reads": [], "drop": 0.6}, at=0.1),
+                                                    req(2, "/big3", big(2, 131072), eager, at=1.0)]},
+            {"locs": [loc("/r/", "gemini://refused.example:7004", 2.0), loc("/", up0, 2.0)], "reqs": [req(0, "/big", big(0, 200000), {"room": 17, "reads": [], "drop": 0.2}), req(1, "/r/x", whole(page), eager, at=0.5)]},
+            # two downloads at once, one of the readers slow: the slow one is held up while the other is answered
+            {"locs": [loc("/", up0, 5.0)], "reqs": [req(0, "/big", big(0, 300000), {"room": 4096, "reads": [[2.0, None]], "drop": None}), req(1, "/big2", big(1, 300000), eager, at=1.0)]},
+            {"locs": [loc("/", up0, 5.0)], "reqs": [req(0, "/big", big(0, 300000), {"room": 4096, "reads": [[2.0, None]], "drop": None}), req(1, "/page", whole(page), eager, at=1.0)]},
+            {"locs": [loc("/", up0, 5.0)], "reqs": [req(0, "/big", big(0, 1500000, 0.3), {"room": 16384, "reads": [[round(0.5 + 0.25 * k, 4), 200000] for k in range(5)] + [[3.0, None]], "drop": None}),
+                                                    req(1, "/page", whole(page, 0.1), eager, at=0.7), req(2, "/big2", big(2, 200000), {"room": 100000, "reads": [[1.5, None]], "drop": None}, at=0.9),
+                                                    req(3, "/page", whole(b"31 gemini://decoy.example:7070/moved\r\n"), eager, at=1.2)]},
+            {"locs": [loc("/", up0, 5.0)], "reqs": [req(0, "/big", big(0, 200000), {"room": 1, "reads": [[1.0, None]], "drop": None}), req(1, "/big2", big(1, 200000), {"room": 1, "reads": [[1.5, None]], "drop": None}, at=0.2)]},
+            # a slow reader alone: the whole body arrives however late it is read (and a timeout of the location is no limit for reading)
+            {"locs": [loc("/", up0, 0.5)], "reqs": [req(0, "/big", big(0, 700000), {"room": 4096, "reads": [[9.3, None]], "drop": None})]},
+            {"locs": [loc("/", up0, 2.0)], "reqs": [req(0, "/big", big(0, 200000), {"room": 0, "reads": [[round(0.1 * k, 4), 4096] for k in range(1, 30)] + [[3.0, None]], "drop": None})]},
+            # an upstream fault answered to a slow reader, next to a dropper
+            {"locs": [loc("/", up0, 2.0)], "reqs": [req(0, "/big", big(0, 131072), {"room": 1024, "reads": [], "drop": 0.1}), req(1, "/stall", stall, {"room": 0, "reads": [[4.1, None]], "drop": None}, at=0.05)]},
+        ]
+        cnt = 0
+        for c in self.share(det):
+            cnt += 1
+            yield dict(c, focus=len(c["reqs"]) - 1)
+        for _ in range(max(0, n - cnt)):
+            nl = rng.choice([1, 1, 2])
+            prefixes = ["/"] if nl == 1 else [rng.choice(["/a/", "/b/", "/search/"]), "/"]
+            locs = [loc(p, rng.choice([up0, up0, up1, up0 + "/"]), rng.choice([2.0, 5.0, 10.0, None])) for p in prefixes]
+            if rng.random() < 0.04:
+                locs[0]["upstream"] = "gemini://refused.example:7004"
+            nr = rng.choice([2, 2, 3, 3, 4, 5])
+            shape = rng.random()
+            reqs, t = [], 0.0
+            for i in range(nr):
+                l = rng.choice(locs)
+                T = l["timeout"] if l["timeout"] is not None else DEFAULT_TIMEOUT
+                if shape < 0.45:      # one after the other: mostly droppers, then somebody who reads
+                    kind = rng.choice(["drop", "drop", "drop", "eager", "late"]) if i < nr - 1 else rng.choice(["eager", "eager", "paced"])
+                    at = round(t, 3)
+                    t += rng.choice([0.0, 0.3, 1.0, 2.5, 6.0])
+                else:                 # all at about the same time
+                    kind = rng.choice(["eager", "eager", "late", "late", "paced", "paced", "drop"])
+                    at = round(rng.choice([0.0, 0.0, 0.1, 0.4, 0.8, 1.5]) + 0.003 * i, 3)
+                path = l["prefix"] + rng.choice(["", "x", "page", "file.bin", "x/y"])
+                reqs.append(req(i, path, b_plan(rng, i, T), b_client(rng, kind), at=at))
+            stay = [i for i, r in enumerate(reqs) if r["client"]["drop"] is None]
+            yield {"locs": locs, "reqs": reqs, "focus": rng.choice(stay) if stay else 0}
+
+    # ---- implementation --------------------------------------------------------------------------
+    def impl(self, case):
+        # every case in a child process of its own: whatever a deployment leaves behind in the interpreter does not reach the
+        # next case, so a reported case fails on its own (in a fresh process), whatever ran before it
+        from ..sim import proxy_flow as F
+
+        return F.isolated(self._impl_here, case)
+
+    def _impl_here(self, case):
+        from ..sim import proxy_flow as F
+
+        reqs = []
+        for r in case["reqs"]:
+            l = w_loc_of(case["locs"], up_path(r["line"]))
+            T = DEFAULT_TIMEOUT if l is None or l["timeout"] is None else l["timeout"]
+            cl = r["client"]
+            last = max([0.0] + [x[0] for x in cl.get("reads") or []] + ([cl["drop"]] if cl.get("drop") is not None else []))
+            reqs.append(dict(r, wait=T + last + 2.5))
+        out = F.run_flow_world(case["locs"], reqs, self._docroot)
+        return {"focus": case.get("focus", 0),
+                "results": [{"down": wdigest(x["down"]), "nwrites": x["nwrites"], "dropped": x["dropped"], "closed": x["closed"], "left": x["left"], "pauses": x["pauses"],
+                             "unsent": x["unsent"], "answered_at": x["answered_at"]} for x in out["results"]],
+                "conns": [[c["host"], c["port"], c["line"].decode("utf-8", "replace"), c["at"]] for c in out["conns"]]}
+
+    # ---- model: the request `focus` of the case (a client that stays) -------------------------------
+    def _focus_spec(self, case):
+        r = case["reqs"][case.get("focus", 0)]
+        l = w_loc_of(case["locs"], up_path(r["line"]))
+        return None if l is None or r["client"].get("drop") is not None else w_spec(l, r["plan"])
+
+    # ---- direct oracle ---------------------------------------------------------------------------
+    def oracle(self, case, obs):
+        locs = case["locs"]
+        ups = set()
+        for l in locs:
+            h = l["upstream"].split("//", 1)[1].split("/", 1)[0]
+            host, _, port = h.partition(":")
+            ups.add((host.lower(), int(port) if port else 1965))
+        flight = "; ".join(f"r{i} {up_path(r['line'])} at {r['at']:g} s {b_show(r['client'])}" for i, r in enumerate(case["reqs"]))
+        ctx = f" [one server, {len(case['reqs'])} downstream connections: {flight}]"
+        for c in obs["conns"]:
+            if (str(c[0]).lower(), c[1]) not in ups:
+                return ("redirect-followed", f"the proxy opened a connection to {c[0]}:{c[1]} ({c[2]!r}), which is not a configured upstream{ctx}")
+        for i, (r, res) in enumerate(zip(case["reqs"], obs["results"])):
+            path = up_path(r["line"])
+            l = w_loc_of(locs, path)
+            if l is None:
+                continue
+            sp = w_spec(l, r["plan"])
+            cl = r["client"]
+            who = f"request r{i} {path!r} (client {b_show(cl)})"
+            d = res["down"]
+            n = len(d["hex"]) // 2 if "hex" in d else d["len"]
+            head = bytes.fromhex(d["hex"] if "hex" in d else d["head"])
+            want = None if sp[0] == "fail" else f"{sp[1]} ".encode() + sp[2] + b"\r\n" + sp[3]
+            wdesc = "a 43 (upstream fault " + str(sp[1]) + ")" if want is None else f"the upstream's response {want[:40]!r} ({len(want)} bytes)"
+            if sum(1 for c in obs["conns"] if c[2].rstrip("\r\n").endswith(f"?r{i}")) > 1:
+                return ("many-connections", f"{who}: more than one upstream connection for one request{ctx}")
+            if res["left"]:
+                # the client dropped the connection before the server had finished: what it has received is the beginning
+                # of its own response (the upstream's bytes, or a 43) and nothing else
+                own = want is not None and wdigest(want[:n]) == d
+                f43 = sp[0] != "relay" and n <= 2 + 1 + 1024 + 2 and (b"43 ".startswith(head) if n < 3 else head.startswith(b"43 ")) \
+                    and (head.count(b"\r\n") == 0 or (head.count(b"\r\n") == 1 and head.endswith(b"\r\n"))) and b"\n" not in head.replace(b"\r\n", b"")
+                if not (own or f43):
+                    return ("foreign-bytes:client-left", f"{who} had received {n} bytes {head[:24]!r}… when it dropped the connection: that is not the beginning of {wdesc}{ctx}")
+                continue
+            if res["dropped"]:
+                return ("not-one-response", f"{who}: {res['dropped']} write(s) after the connection was closed{ctx}")
+            if not res["closed"] or n == 0:
+                return ("no-response", f"{who}: no complete answer ({n} bytes received, {res['unsent']} accepted and unsent, connection {'closed' if res['closed'] else 'open'}) "
+                                       f"2.5 s after the timeout and the client's last read; due: {wdesc}{ctx}")
+            m = re.match(rb"([1-6][0-9]) ([^\r\n]{0,1024})\r\n", head, re.S)
+            if not m or ("hex" in d and parse_down(head) is None):
+                return ("not-one-response", f"{who} received {n} bytes that are not one well-formed response: {head[:24]!r}…; due: {wdesc}{ctx}")
+            st = int(m.group(1))
+            if sp[0] == "fail":
+                if st != 43:
+                    return (f"malformed-relayed:{sp[2]}" if sp[2] else f"fault-not-43:{sp[1]}", f"{who}: {wdesc} was due, the client received {n} bytes {head[:60]!r}{ctx}")
+                continue
+            if st == 43 and sp[0] == "relay-or-fail":
+                continue
+            if st == 43 and sp[1] != 43:
+                return ("well-formed-answered-43", f"{who}: {wdesc} was answered {head[:60]!r}{ctx}")
+            if wdigest(want) != d:
+                sig = "relay-altered:status" if st != sp[1] else "relay-altered:meta" if m.group(2) != sp[2] else "relay-altered:body"
+                return (sig, f"{who} received {n} bytes {head[:24]!r}…, not {wdesc}{ctx}")
+        return None
+
+    def shrink(self, case, bad):
+        """fewest requests (renumbered) that still fail in the same way"""
+        cur = case
+        i = len(cur["reqs"]) - 1
+        while i >= 0 and len(cur["reqs"]) > 1:
+            reqs = [dict(r, line=re.sub(r"\?r[0-9]+$", f"?r{k}", r["line"])) for k, r in enumerate(x for j, x in enumerate(cur["reqs"]) if j != i)]
+            cand = dict(cur, reqs=reqs, focus=min(cur.get("focus", 0), len(reqs) - 1))
+            try:
+                if bad(cand):
+                    cur = cand
+            except Exception:  # noqa: BLE001
+                pass
+            i -= 1
+        return cur
+
+    def key(self, case, obs):
+        r = case["reqs"][case.get("focus", 0)]
+        l = w_loc_of(case["locs"], up_path(r["line"]))
+        sp = w_spec(l, r["plan"]) if l is not None else ("none",)
+        kind = sp[0] if sp[0] != "fail" else "fail:" + str(sp[1])
+        drops = sum(1 for x in obs["results"] if x["left"])
+        held = sum(1 for x in obs["results"] if x["pauses"])
+        unsent_lost = sum(1 for x in obs["results"] if x["left"] and x["pauses"])
+        return f"n={len(case['reqs'])}:held={min(held, 3)}:left={min(drops, 2)}:left-while-held={min(unsent_lost, 2)}:focus={kind}"
+
+
 def wdigest(b: bytes):
     if len(b) <= 2048:
         return {"hex": b.hex()}
@@ -1090,7 +1354,7 @@ def up_path(line: str) -> str:
     return p.split("?", 1)[0]
 
 
-FAMILIES = [Relay(), Wired(), Overlap()]
+FAMILIES = [Relay(), Wired(), Overlap(), Backlog()]
 
 
 def extract_extra():
